@@ -868,7 +868,8 @@ class Table(Vector):
 		if isinstance(value, Vector):
 			value = value.copy()
 		elif isinstance(value, (list, tuple)):
-			value = [v.copy() if isinstance(v, Vector) else v for v in value]
+			# (a one-shot iterator among the items is materialised too: the rehearsal below would use it up)
+			value = [v.copy() if isinstance(v, Vector) else (list(v) if isinstance(v, Iterator) else v) for v in value]
 
 		# More than one column: rehearse the whole assignment on scratch copies of the target
 		# columns first. Whatever one of them refuses (a value of the wrong kind, a wrong length, a
